@@ -162,3 +162,320 @@ harnesses! {
         vcover!(sel == 2, "reach: width 8");
     }
 }
+
+/// Reference implementations typed from the Falcon specification (Algorithms 3, 16, 17, 18),
+/// independent of the crate's code (only the sha3 crate is shared).  Used by the replay tool for
+/// witness search and replay; never part of a proof.
+pub(crate) mod refspec {
+    use sha3::digest::{ExtendableOutput, Update, XofReader};
+
+    pub const Q: i64 = 12289;
+
+    fn bit(x: &[u8], p: usize) -> bool {
+        (x[p / 8] >> (7 - p % 8)) & 1 == 1
+    }
+    /// Algorithm 18 with the magnitude bound of property C07 (unary run < 95)
+    pub fn decompress(x: &[u8], n: usize) -> Option<Vec<i32>> {
+        let nb = 8 * x.len();
+        let mut p = 0usize;
+        let mut out = Vec::new();
+        if n == 0 {
+            return None;
+        }
+        for _ in 0..n {
+            if p + 9 > nb {
+                return None;
+            }
+            let neg = bit(x, p);
+            let mut low = 0i32;
+            for j in 0..7 {
+                low = (low << 1) | bit(x, p + 1 + j) as i32;
+            }
+            let mut k = 0usize;
+            loop {
+                if p + 8 + k >= nb {
+                    return None;
+                }
+                if bit(x, p + 8 + k) {
+                    break;
+                }
+                k += 1;
+                if k >= 95 {
+                    return None;
+                }
+            }
+            let mag = 128 * k as i32 + low;
+            if neg && mag == 0 {
+                return None;
+            }
+            out.push(if neg { -mag } else { mag });
+            p += 9 + k;
+        }
+        for q in p..nb {
+            if bit(x, q) {
+                return None;
+            }
+        }
+        Some(out)
+    }
+    /// Algorithm 17
+    pub fn compress(v: &[i16], l: usize) -> Option<Vec<u8>> {
+        if v.is_empty() {
+            return None;
+        }
+        let mut bits: Vec<bool> = Vec::new();
+        for &c in v {
+            let a = (c as i32).unsigned_abs();
+            bits.push(c < 0);
+            for j in (0..7).rev() {
+                bits.push((a >> j) & 1 == 1);
+            }
+            for _ in 0..(a >> 7) {
+                bits.push(false);
+            }
+            bits.push(true);
+        }
+        if bits.len() > 8 * l {
+            return None;
+        }
+        let mut out = vec![0u8; l];
+        for (p, b) in bits.iter().enumerate() {
+            if *b {
+                out[p / 8] |= 1 << (7 - p % 8);
+            }
+        }
+        Some(out)
+    }
+    /// Algorithm 3
+    pub fn hash_to_point(input: &[u8], n: usize) -> Vec<i64> {
+        let mut h = sha3::Shake256::default();
+        h.update(input);
+        let mut r = h.finalize_xof();
+        let mut out = Vec::new();
+        while out.len() < n {
+            let mut b = [0u8; 2];
+            r.read(&mut b);
+            let t = ((b[0] as i64) << 8) | b[1] as i64;
+            if t < 61445 {
+                out.push(t % Q);
+            }
+        }
+        out
+    }
+    /// Algorithm 16 (schoolbook negacyclic product)
+    pub fn verify(m: &[u8], salt: &[u8], s: &[u8], h: &[i64], n: usize) -> bool {
+        let bound: i64 = if n == 512 { 34034726 } else { 70265242 };
+        let s2 = match decompress(s, n) {
+            Some(v) => v,
+            None => return false,
+        };
+        let mut inp = salt.to_vec();
+        inp.extend_from_slice(m);
+        let c = hash_to_point(&inp, n);
+        let mut norm: i64 = 0;
+        for k in 0..n {
+            let mut acc: i64 = 0;
+            for i in 0..n {
+                let (j, sign) = if k >= i { (k - i, 1) } else { (k + n - i, -1) };
+                acc = (acc + sign * (s2[i] as i64) * h[j]).rem_euclid(Q);
+            }
+            let mut s1 = (c[k] - acc).rem_euclid(Q);
+            if s1 > 6144 {
+                s1 -= Q;
+            }
+            norm += s1 * s1;
+        }
+        for v in &s2 {
+            norm += (*v as i64) * (*v as i64);
+        }
+        norm <= bound
+    }
+}
+
+fn hexs(b: &[u8]) -> String {
+    b.iter().map(|x| format!("{:02x}", x)).collect()
+}
+
+/// one verify case on the real code against the reference: Ok(agree) / Err(description)
+pub(crate) fn verify_case<const N: usize>(m: &[u8], salt: [u8; 40], s: &[u8], h: &[i64]) -> Result<(), String> {
+    let pk = PublicKey::<N> { h: Polynomial::new(h.iter().map(|v| Felt::new(*v as i16)).collect()) };
+    let sig = Signature::<N> { r: salt, s: s.to_vec() };
+    let expect = refspec::verify(m, &salt, s, h, N);
+    let m2 = m.to_vec();
+    let got = std::panic::catch_unwind(move || verify::<N>(&m2, &sig, &pk));
+    match got {
+        Ok(g) if g == expect => Ok(()),
+        Ok(g) => Err(format!("verify returned {} but Algorithm 16 says {}", g, expect)),
+        Err(_) => Err("verify panicked".to_string()),
+    }
+}
+
+/// Directed witness search for `verify` (bounded; witness production only): crafted public keys
+/// h = (c - s1) * s2^-1 for s2 = (v, 0, .., 0), with s1 of chosen norm.
+pub(crate) fn search_verify<const N: usize>(seed: u64) -> Option<String> {
+    let bound: i64 = if N == 512 { 34034726 } else { 70265242 };
+    let l = if N == 512 { 625 } else { 1239 };
+    let vs: [i16; 12] = [1, -1, 130, -130, 6144, -6144, 6145, -6145, 12159, -12159, 5000, -7000];
+    for (vi, v) in vs.iter().enumerate() {
+        for delta in [-1i64, 0, 1, -(bound / 2)] {
+            let mut s2 = vec![0i16; N];
+            s2[0] = *v;
+            let own = (*v as i64) * (*v as i64);
+            // s1 with squared norm bound + delta - (centred v)^2-ish: choose target >= 0
+            let mut target = bound + delta - own;
+            if target < 0 {
+                target = 0;
+            }
+            let mut s1 = vec![0i64; N];
+            let mut k = 0;
+            let mut t = target;
+            while t > 0 && k < N {
+                let mut r = (t as f64).sqrt() as i64;
+                while r * r > t { r -= 1; }
+                while (r + 1) * (r + 1) <= t { r += 1; }
+                if r > 6144 { r = 6144; }
+                s1[k] = r;
+                t -= r * r;
+                k += 1;
+            }
+            let mut m = b"witness search ".to_vec();
+            m.push(vi as u8);
+            m.extend_from_slice(&seed.to_le_bytes());
+            let salt = [(seed as u8) ^ 0x5a; 40];
+            let mut inp = salt.to_vec();
+            inp.extend_from_slice(&m);
+            let c = refspec::hash_to_point(&inp, N);
+            // h = (c - s1) * v^-1  (s2 = v * X^0)
+            let vq = (*v as i64).rem_euclid(refspec::Q);
+            let mut inv = 1i64;
+            let mut e = refspec::Q - 2;
+            let mut b = vq;
+            while e > 0 {
+                if e & 1 == 1 { inv = inv * b % refspec::Q; }
+                b = b * b % refspec::Q;
+                e >>= 1;
+            }
+            let h: Vec<i64> = (0..N).map(|i| ((c[i] - s1[i]).rem_euclid(refspec::Q) * inv) % refspec::Q).collect();
+            let body = match refspec::compress(&s2, l) { Some(b) => b, None => continue };
+            if let Err(why) = verify_case::<N>(&m, salt, &body, &h) {
+                let hb: Vec<u8> = h.iter().flat_map(|x| (*x as u16).to_be_bytes()).collect();
+                return Some(format!("{} | argv=verify-case,{},{},{},{},{}", why, N, hexs(&m), hexs(&salt), hexs(&body), hexs(&hb)));
+            }
+        }
+    }
+    None
+}
+
+/// one decompress / compress case on the real code against the reference
+pub(crate) fn codec_case(x: &[u8], n: usize) -> Result<(), String> {
+    let expect = refspec::decompress(x, n);
+    let x2 = x.to_vec();
+    let got = std::panic::catch_unwind(move || crate::encoding::decompress(&x2, n));
+    match got {
+        Err(_) => Err("decompress panicked".to_string()),
+        Ok(g) => {
+            let g32: Option<Vec<i32>> = g.map(|v| v.iter().map(|c| *c as i32).collect());
+            if g32 != expect {
+                Err(format!("decompress returned {:?} but Algorithm 18 gives {:?}", g32.as_ref().map(|v| &v[..v.len().min(4)]), expect.as_ref().map(|v| &v[..v.len().min(4)])))
+            } else { Ok(()) }
+        }
+    }
+}
+pub(crate) fn compress_case(v: &[i16], l: usize) -> Result<(), String> {
+    let expect = refspec::compress(v, l);
+    let v2 = v.to_vec();
+    let got = std::panic::catch_unwind(move || crate::encoding::compress(&v2, l));
+    match got {
+        Err(_) => Err("compress panicked".to_string()),
+        Ok(g) => if g != expect { Err(format!("compress returned {:?} but Algorithm 17 gives {:?}", g.map(|b| hexs(&b)), expect.map(|b| hexs(&b)))) } else { Ok(()) },
+    }
+}
+
+/// Directed witness search for the codec (bounded; witness production only).
+pub(crate) fn search_codec(seed: u64) -> Option<String> {
+    let mut st = seed.wrapping_mul(6364136223846793005).wrapping_add(1442695040888963407);
+    let mut rnd = move || { st ^= st << 13; st ^= st >> 7; st ^= st << 17; st };
+    let dec = |x: &[u8], n: usize| -> Option<String> {
+        codec_case(x, n).err().map(|why| format!("{} | argv=decompress-case,{},{}", why, hexs(x), n))
+    };
+    // 1. exhaustive: all strings of 1 and 2 bytes, n = 1, 2
+    for n in 1..=2usize {
+        for a in 0..=255u8 {
+            if let Some(w) = dec(&[a], n) { return Some(w); }
+            for b in 0..=255u8 {
+                if let Some(w) = dec(&[a, b], n) { return Some(w); }
+            }
+        }
+    }
+    // 2. structured: valid encodings of vectors with boundary magnitudes, then perturbed
+    let mags: [i16; 14] = [0, 1, -1, 127, -127, 128, -128, 12159, -12159, 12032, 255, -256, 6144, -6145];
+    for round in 0..60 {
+        let n = 1 + (rnd() % 5) as usize;
+        let v: Vec<i16> = (0..n).map(|_| mags[(rnd() % 14) as usize]).collect();
+        let bits: usize = v.iter().map(|c| 9 + ((*c as i32).unsigned_abs() >> 7) as usize).sum();
+        for extra in [0usize, 1, 2, 7, 8, 9, 13, 21] {
+            let l = (bits + 7) / 8 + extra;
+            if let Err(why) = compress_case(&v, l) {
+                let vs: Vec<String> = v.iter().map(|c| c.to_string()).collect();
+                return Some(format!("{} | argv=compress-case,{},{}", why, vs.join(";"), l));
+            }
+            if l > 0 { if let Err(why) = compress_case(&v, l - 1) {
+                let vs: Vec<String> = v.iter().map(|c| c.to_string()).collect();
+                return Some(format!("{} | argv=compress-case,{},{}", why, vs.join(";"), l - 1));
+            } }
+            let x = match refspec::compress(&v, l) { Some(x) => x, None => continue };
+            if let Some(w) = dec(&x, n) { return Some(w); }
+            if n > 1 { if let Some(w) = dec(&x, n - 1) { return Some(w); } }
+            if let Some(w) = dec(&x, n + 1) { return Some(w); }
+            // every single padding bit set
+            for p in bits..8 * l {
+                let mut y = x.clone();
+                y[p / 8] |= 1 << (7 - p % 8);
+                if let Some(w) = dec(&y, n) { return Some(w); }
+            }
+            // every single bit flipped (small cases only)
+            if round < 12 {
+                for p in 0..bits.min(8 * l) {
+                    let mut y = x.clone();
+                    y[p / 8] ^= 1 << (7 - p % 8);
+                    if let Some(w) = dec(&y, n) { return Some(w); }
+                }
+            }
+            // truncations
+            for cut in 1..=2usize { if l > cut { if let Some(w) = dec(&x[..l - cut], n) { return Some(w); } } }
+        }
+    }
+    // 3. long unary runs for the last and for a non-last coefficient
+    for run in [93usize, 94, 95, 96, 255, 256, 511, 512] {
+        for tail in [false, true] {
+            let mut bitsv: Vec<bool> = vec![false, false, false, false, false, true, false, true]; // +5
+            bitsv.extend(std::iter::repeat(false).take(run));
+            bitsv.push(true);
+            if tail { bitsv.extend([false, false, false, false, false, false, false, true, true]); } // a second coefficient 1
+            let l = (bitsv.len() + 7) / 8 + 1;
+            let mut x = vec![0u8; l];
+            for (p, b) in bitsv.iter().enumerate() { if *b { x[p / 8] |= 1 << (7 - p % 8); } }
+            if let Some(w) = dec(&x, if tail { 2 } else { 1 }) { return Some(w); }
+        }
+    }
+    // 4. a non-last coefficient starting 9, 10 .. 17 bits before the end
+    for l in 2..=6usize {
+        for back in 9..=17usize {
+            if 8 * l < back + 9 { continue; }
+            let first = 8 * l - back; // bits used by coefficient 0: 9 + k
+            if first < 9 || first - 9 >= 95 { continue; }
+            let mut bitsv: Vec<bool> = vec![false; 8];
+            bitsv[7] = true;
+            bitsv.extend(std::iter::repeat(false).take(first - 9));
+            bitsv.push(true);
+            for fill in [0u16, 0x1ff, 0x0ff, 0x100, 0x001] {
+                let mut b2 = bitsv.clone();
+                for t in 0..back { b2.push(t < 9 && (fill >> (8 - t)) & 1 == 1); }
+                let mut x = vec![0u8; l];
+                for (p, b) in b2.iter().enumerate() { if *b { x[p / 8] |= 1 << (7 - p % 8); } }
+                for n in 2..=3usize { if let Some(w) = dec(&x, n) { return Some(w); } }
+            }
+        }
+    }
+    None
+}
